@@ -101,14 +101,21 @@ CLAIMED['C11'] = dict(
     design='DESIGN.md section 3 / C11')
 
 CLAIMED['C04'] = dict(
-    technique='symbolic execution of rustc MIR (M2S) of the argument-naming kernels of AstResolver; z3 decides agreement with the LANGUAGE.md rules; whole documents replayed through Document::parse + resolve',
+    technique='symbolic execution of rustc MIR (M2S) of the argument-naming, access and export kernels of AstResolver; z3 decides agreement with the LANGUAGE.md rules; whole documents replayed through Document::parse + resolve',
     text='Kernel-level, bounded: (1) find_matching_interface_name on real byte strings (2 externs, names <= 9/11 bytes over an alphabet containing : / @ . - ): returns '
          'exactly the unique extern whose last path segment with the version stripped equals the identifier, and nothing when an extern has that exact name; '
          '(2) inferred_instantiation_arg and named_instantiation_arg over abstract names: the chosen argument name follows the documented precedence for every '
          'resolver state (interface id, then import / aliased export name, then last-segment match, then the identifier; string names verbatim); '
          '(3) spread_instantiation_arg with <= 2/3 expected imports and bound arguments: fills exactly the unspecified imports the instance exports, in import order, '
-         'never overwrites, rejects non-instances and ineffective spreads. The rest of evaluation (new_expr argument table and type checks, implicit imports, access '
-         'expressions, export name inference, exports) is NOT claimed; the quantifier over whole documents is replaced by these kernels plus a fixed battery of documents.',
+         'never overwrites, rejects non-instances and ineffective spreads; (4) new_expr with 1..3/4 arguments of any form: the argument table is the named / inferred '
+         'arguments in order followed by the spread additions, duplicates, misplaced `...`, missing arguments and graph errors are reported as documented; '
+         '(5) access: postfix_expr selects for `.id` the unique last-segment match among the instance exports, else the export named id, for `["s"]` the export named s '
+         'verbatim, reports a missing export / non-instance and aliases nothing else; alias_export aliases exactly the named export of the given instance when its type has it; '
+         '(6) export: infer_export_name = interface id of an instance, else import name, else aliased export name, else none; export_item refuses a name bound to a definition '
+         'in the root scope, otherwise exports under exactly the given name and maps the graph verdict to duplicate / invalid export name; export_statement uses the inferred '
+         'name (ExportRequiresAs when none), the `as` name verbatim, and for `...` exports every instance export not yet exported, in order, under its own name, rejecting a '
+         'non-instance and an ineffective spread (instance types with <= 2/3 exports). NOT claimed: type checks inside the graph, implicit imports, import statements, `let` scoping, '
+         'type / interface / world declarations; the quantifier over whole documents is replaced by these kernels (sub-resolutions by contract) plus a fixed battery of 27 documents.',
     note='Trusted: M2S, z3, State::local_item / Item::kind / alias_export / expr as arbitrary results, IndexMap association-list model. Documents in the battery are examples, not the claim.',
     design='DESIGN.md section 3 / C04')
 
